@@ -139,9 +139,9 @@ Init == /\ \E d \in Pre : /\ pre = d
 NEnv == Cardinality({i \in DOMAIN log : log[i].op.k \in EnvKinds})
 
 Do(op) ==
+    \* (\E over a singleton: the prediction is computed once)
+    \E p \in {Predict(DOMAIN dir, op)} : \E created \in {Range(p.new)} :
     LET names == DOMAIN dir
-        p == Predict(names, op)
-        created == Range(p.new)
         keep == names \ p.gone
         verOf(n) == IF HasSrc(p, n) THEN dir[SrcOf(p, n)] ELSE clock + IndexIn(p.new, n)
     IN
